@@ -85,6 +85,7 @@ def check_state(desc, sc, pats, flagsets, res, hows=('root_dir',), thin=0):
     sc.load(state)
     model = fsx.Model(state)
     cyc = model.has_cycle()
+    nl_state = any('\n' in d for d in desc)
     res.n['fs_states_evaluated'] += 1
     fd = None
     cwd = os.getcwd()
@@ -104,6 +105,10 @@ def check_state(desc, sc, pats, flagsets, res, hows=('root_dir',), thin=0):
                     p, ex, extra = item
                     text = ' '.join(p)
                 fs2 = fs + extra
+                if nl_state and ('X' in fs2 or '**' in text):
+                    # behind a globstar or the MATCHBASE prefix a trailing newline is the recorded finding NLDIV (C02);
+                    # the newline state is here for the matcher's and the walker's treatment of whole names
+                    continue
                 if cyc and follows(text, fs2):
                     res.notes['skipped_follow_on_cyclic_tree'] += 1
                     continue
